@@ -45,6 +45,29 @@ CLAIMED = {
             "public operation (hence every finite sequence) keeps the tree shape and the length of every row list. Whole-snapshot step correspondence; monitors: update-twice twins, "
             "read-vs-explicit-update twins, past rows compared between consecutive snapshots, no series beyond now.",
             "DESIGN 7 C08"),
+    "C12": ("Theorems (Lean 4, lists of any length, all flag combinations, all n/offset/day-count parameters) about an executable model of RunPeriod.__call__ + the five compare_dates + RunOnce/RunOnDate/RunAfterDate/RunAfterDays/RunEveryNPeriods over a forward civil calendar (leap years, ISO year/week proved to identify the Monday week, period identifiers proved monotone in time): pre-start row, None and foreign dates never fire; first/last row = flag; interior row fires iff the period identifier changes against the neighbour = first (last) row of its period; closed forms of the counting schedulers incl. once per distinct date. The property text as a whole is proved off the edge rows and, for RunWeekly, off weeks that straddle New Year; on those inputs the code violates the text (Lean witnesses, listed as known findings). The model is compared with the real schedulers (direct calls on a real Strategy and whole Backtest runs) on generated indices, the Lean calendar with pandas on every generated timestamp (thorough: every day of pandas' ns range); an independent stdlib-datetime monitor evaluates the text on the real results.",
+            "DESIGN 7 C12"),
+    "C13": ("Theorems (Lean 4, every state type, every algo = attribute + arbitrary state transformer that returns a bool or raises, lists of any length, hence nested stacks and Or branches): AlgoStack.__call__ with its two execution modes equals one specification loop (prefix up to the first False, then exactly the later run_always-true algos, result False); result True iff all returned True; the two modes agree; Or calls every branch and returns the disjunction; Not inverts; Require's three cases; RunIfOutOfBounds over any ordered field: True iff some child named in the targets has |w-t|/|t| > tolerance (non-zero targets, no cash entry) and AttributeError on the cash branch (known finding); Strategy.run on every tree: temp has no influence, visit order = depth-first preorder, each strategy once per run, n runs. The model (scripted mocks with run_always absent/True/False, temp/perm writes) is compared exactly with the real bt objects on exhaustive truth tables of flat stacks (length <= 5 quick, <= 6 thorough), generated nested programs, RunIfOutOfBounds on real strategies around the tolerance boundary and trees of strategies run repeatedly; the monitor is an oracle written from the property text (call log, result, temp, perm), also applied to whole Backtest runs.",
+            "DESIGN 7 C13"),
+    "C14": ("Theorems (Lean 4; the flag/universe/look-ahead ones for any number type with < and 0, ranking for any linear order, total return for ordered fields) about an executable model of the 13 selection algos: each selector meets its specification (exact filtered list, KeyError cases), default flags give only tickers with a present positive current price, filters return sub-lists of the prior selection, nothing after `now` is read, SelectN's stable-sort function satisfies the order-insensitive top-k relation whose meaning (size min(k,|eligible|), dominance, all_or_none, filter_selected) is proved, StatTotalReturn = last/first-1 over the resolved window.  The model is run against the real algos on generated universes/parameters/prior temp (direct calls and tapped Backtest runs; lists compared exactly, ranked/random outputs by evaluating the Lean relation on the real output; window positions checked against the frame the algo actually slices); an independent monitor recomputes the documented set.  Date offsets are resolved by pandas on the Python side; regex/random.sample/isinstance are parameters.  Known findings: include_no_data=True also disables the price>0 filter (6 algos) and lets names outside the universe through (3 algos).",
+            "DESIGN 7 C14"),
+    "C15": ("Theorems (Lean 4, any linearly ordered field; sqrt only through the assumption sqrt(x)>=0, sqrt(x)^2=x, instantiated at the reals) about an executable model of the weighting algos: equal weights sum to one; specified weights are handed out as a copy; linear rescale; dated target row with missing dropped / False when the date is absent; LimitDeltas bound for every held or targeted name, untouched and clipped values; LimitWeights / ffn.limit_weights: cap respected whenever weights come out, recursion depth n+1 suffices, total preserved for positive weights summing to one, {} when infeasible; ffn.random_weights for all uniform draws and shuffles (bounds, total, {} when infeasible); inverse-volatility weights positive, sum one, weight x volatility constant; window exact and prefix-determined (no look-ahead); TargetVol scaling hits the target; PTE_Rebalance True iff tracking-error volatility above the cap.  ERC / mean-variance optimisers are external: bt's plumbing is modelled and compared, their outputs are checked at run time by Lean-defined predicates (runtime verification, not proof).  Every generated case runs the real algo on a real Strategy and the model through the driver; independent numpy monitors evaluate the documented relations.  Known findings: LimitWeights NaN on zero-sum below-cap weights, TargetVol frozen per-name dict, ledoit-wolf branches of TargetVol/PTE_Rebalance always raise.",
+            "DESIGN 7 C15"),
+    "C10": ("42 theorems on the engine model (operations return Except Err): each enumerated ill-formed class returns its specific error (NaN price / NaN coupon on an open position, "
+            "allocate at a missing or zero price, zero return base for both index formulas, custom price without bid/offer, parentless security; transact at a NaN price is an explicit "
+            "NanData error in the model where the code books NaN), errors propagate through any tree (sound and complete certificate `update_raises_iff_certificate`), an update can only "
+            "raise one of the enumerated errors, and well-formed securities/trees/trades complete (exact iff-characterisations; allocate only for flat-fee or fractional proportional costs: "
+            "partial, the sizing search does raise on sane commissions - known findings with Lean witnesses). The runtime half (installed pandas/numpy, report accessors, finiteness) is "
+            "carried by the run: generated well-formed backtests incl. fixed-income programs with every report accessor, every variant of every ill-formed class, and ok/which-error agreement "
+            "of the model with the code on an ill-formed stream of engine histories. Setup-time classes (duplicate tickers, FI child under MV parent) are monitored, not modelled.",
+            "DESIGN 7 C10"),
+    "C17": ("16 theorems: notional by security kind (plain = value, fixed-income/coupon = position, hedge kinds = 0 with zero-filled rows), coupon = position x coupon and long/short holding "
+            "cost on the absolute position with capital = coupon - cost, NaN coupon on an open position raises, parked cash is swept into the parent exactly once on the next date (any "
+            "children list), strategy notional = sum |child notional| over visited children with hedges excluded, fixed-income weights = notional / N, the additive index in all four "
+            "branches and at the first update of a date, rebalance of a fixed-income parent reduces to transact/allocate of weight*base - weight_c*N and reaches weight*base from a balanced "
+            "state, all at every depth of any tree. Step correspondence on fixed-income histories (C17 footprint); monitors: notional by kind, carry rows, ledger, additive index, "
+            "SetNotional-scaled targets right after Rebalance in generated FixedIncomeStrategy backtests.",
+            "DESIGN 7 C17"),
 }
 # pid -> reason it is not claimed (yet)
 NOT_YET = {}
